@@ -189,7 +189,9 @@ def pretty_jobs(prop, tier):
     for trait in ('Display', 'Debug'):
         for N in (1, 2): jobs.append(J(N, trait))
         for x in (1, 2, 3):
-            for alt in (0, 1): jobs.append(J(3, trait, fix_x=x, alt=alt))
+            # quick: five of the eight renderings at N = 3 (single line, two lines, chunked with an empty interior line, \r\n, a line
+            # break through write_char); the full alphabet runs at N <= 2 and, in the thorough tier, at N = 3
+            for alt in (0, 1): jobs.append(J(3, trait, fix_x=x, alt=alt, **({'rset': [0, 1, 4, 6, 7]} if tier == 'quick' else {})))
         if tier != 'quick':
             for x in (1, 2, 3, 4):
                 for alt in (0, 1): jobs.append(J(4, trait, fix_x=x, alt=alt, rset=[0, 1, 4]))
